@@ -3,6 +3,8 @@
 from __future__ import annotations
 
 import ast
+
+import numpy as np
 import json
 import os
 
@@ -111,7 +113,7 @@ def run(ctx):
     prog = ctx.prog
     ce = ConstEval(prog)
     spec = _load_spec()
-    ctx.clauses_decided = ["R1 one-based -> zero-based", "R2 column layouts", "R3 chemists' -> physicists'", "R4 triangular / block unpacking", "R5 permutation literals", "R6 labelled records attached by label", "R7 index maps of reshaping expressions (symbolic evaluation)", "R8 no placement by narrow counter fields", "R9 VASP coordinate-mode switch", "R10 deferred application of section data", "R11 Molden tag meaning (finite-domain evaluation)", "R12 block precedence in log scans"]
+    ctx.clauses_decided = ["R1 one-based -> zero-based", "R2 column layouts", "R3 chemists' -> physicists'", "R4 triangular / block unpacking", "R5 permutation literals", "R6 labelled records attached by label", "R7 index maps of reshaping expressions (symbolic evaluation)", "R8 no placement by narrow counter fields", "R9 VASP coordinate-mode switch", "R10 deferred application of section data", "R11 Molden tag meaning (finite-domain evaluation)", "R12 block precedence in log scans", "R13 GRO box order (evaluated)", "R14 pass-through key collisions", "R15 MOL2 atom record fields (evaluated)"]
     ctx.clauses_declined = ["free-format and log-file parsers beyond R1/R3/R4/R5", "numerical accuracy of parsed values", "Fortran D exponents"]
 
     # ------------------------------------------------------------------ R2
@@ -578,6 +580,12 @@ def run(ctx):
     check_molden_reader_tags(ctx, ce, "R11")
     ctx.rule("R12", "repeated blocks of a log: all result slots of one scan follow the same precedence", "coordinates of the first step are returned with the energy of the last step of an optimisation / multi-step log")
     check_block_precedence(ctx, "R12")
+    ctx.rule("R13", "GRO box line: the nine numbers land in the cell matrix in the format's order (evaluated)", "a triclinic cell is loaded transposed: cell vectors differ from the same system read from another format")
+    check_gromacs_box(ctx, "R13")
+    ctx.rule("R14", "optional fields copied through keep their own slot (no two source keys share a destination key)", "the text of one field is loaded (and written back) under the name of another, whose own value is lost")
+    check_key_collisions(ctx, "R14")
+    ctx.rule("R15", "MOL2 atom record: every optional trailing field is honoured (reader evaluated on model records)", "charges of a file that also carries status bits are all loaded as zero")
+    check_mol2_atom_record(ctx, "R15")
 
 
 NARROW_POSITIVE = '''
@@ -778,3 +786,134 @@ def _not_in_guard(pm, st, dname):
             break
         cur = par
     return None
+
+
+def check_gromacs_box(ctx, rid):
+    """The nine numbers of a GRO box line land in the cell matrix as the format orders them.
+
+    GROMACS writes `v1(x) v2(y) v3(z) v1(y) v1(z) v2(x) v2(z) v3(x) v3(y)`; IOData's `cellvecs` holds one cell vector
+    per row.  The box-reading tail of the frame reader is evaluated on a model line whose tokens spell their own
+    destination (`12` = vector 1, component y), with nanometer standing for 1."""
+    from ..accessors import AccessorEval, Raised, Rec
+    from ..symarr import NotSymbolic
+
+    prog = ctx.prog
+    f = prog.func("iodata.formats.gromacs._helper_read_frame")
+    licls = prog.cls("iodata.utils.LineIterator")
+    start = None
+    for i, st in enumerate(f.body):
+        if isinstance(st, ast.Assign) and isinstance(st.value, ast.Call) and src_of(st.value.func) in ("np.zeros", "numpy.zeros") and "(3, 3)" in src_of(st.value):
+            start = i
+    if start is None:
+        raise AnalysisError("gromacs._helper_read_frame: the 3x3 cell allocation was not found")
+    frag = [st for st in f.body[start:] if not isinstance(st, ast.Return)]
+    cvar = f.body[start].targets[0].id
+    for label, line, want in (
+        ("triclinic box (nine numbers)", "11 22 33 12 13 21 23 31 32\n", [[11, 12, 13], [21, 22, 23], [31, 32, 33]]),
+        ("rectangular box (three numbers)", "11 22 33\n", [[11, 0, 0], [0, 22, 0], [0, 0, 33]]),
+    ):
+        lit = Rec(licls, filename="F", fh=iter([line]), lineno=0, stack=[])
+        ev = AccessorEval(prog, licls, limit=2000)
+        ev.module = f.module
+        ev._globals = {("iodata.utils", "nanometer"): 1.0}
+        local = {f.posparams[0]: lit}
+        try:
+            ev._block(frag, local)
+        except Raised as exc:
+            ctx.violate(rid, f"GRO {label}: reading the box line raises {exc.args[0]}", f, f.body[start], construct=f"gro box {label}: raises")
+            continue
+        except NotSymbolic as exc:
+            raise AnalysisError(f"gromacs box fragment is outside the evaluation whitelist: {exc}") from exc
+        got = np.asarray(local[cvar], dtype=float).round().astype(int).tolist()
+        if got == want:
+            ctx.ok(rid, f"GRO {label}: every number lands at (vector, component) as the format orders them", f"{f.module.relpath}:{f.body[start].lineno}")
+        else:
+            wrong = [(i, j) for i in range(3) for j in range(3) if got[i][j] != want[i][j]]
+            i, j = wrong[0]
+            ctx.violate(rid, f"GRO {label}: cellvecs[{i}, {j}] (vector {i + 1}, component {'xyz'[j]}) receives the number the format calls v{got[i][j] // 10}({'xyz'[got[i][j] % 10 - 1] if got[i][j] else '-'}); the format order is v1x v2y v3z v1y v1z v2x v2z v3x v3y and cell vectors are rows ({len(wrong)} entries misplaced)", f, f.body[start], construct=f"gro box {label}: entries misplaced")
+
+
+def check_key_collisions(ctx, rid):
+    """Pass-through copies keep their key: no two source keys are copied into the same destination slot.
+
+    In a run of `if "k" in src: dst["k"] = src["k"]` statements (QCSchema's optional fields), a copy whose destination
+    key is also the destination of another, independent copy in the same function overwrites that one: the value
+    stored (or written) under the key is the value of a different field."""
+    prog = ctx.prog
+    n = 0
+    for f in prog.package_funcs():
+        if not f.module.name.startswith("iodata.formats."):
+            continue
+        copies = {}
+        for st in f.own_nodes():
+            if not (isinstance(st, ast.If) and not st.orelse and len(st.body) == 1 and isinstance(st.body[0], ast.Assign)):
+                continue
+            t = st.test
+            if not (isinstance(t, ast.Compare) and len(t.ops) == 1 and isinstance(t.ops[0], ast.In) and isinstance(t.left, ast.Constant) and isinstance(t.left.value, str)):
+                continue
+            a = st.body[0]
+            if len(a.targets) != 1 or not (isinstance(a.targets[0], ast.Subscript) and isinstance(a.targets[0].slice, ast.Constant) and isinstance(a.targets[0].slice.value, str)):
+                continue
+            src = src_of(t.comparators[0])
+            v = a.value
+            if not (isinstance(v, ast.Subscript) and src_of(v.value) == src and isinstance(v.slice, ast.Constant) and v.slice.value == t.left.value):
+                continue
+            n += 1
+            copies.setdefault((src_of(a.targets[0].value), a.targets[0].slice.value), []).append((t.left.value, st))
+        for (dst, key), items in copies.items():
+            srcs = sorted({k for k, _ in items})
+            if len(srcs) > 1:
+                other = next(st for k, st in items if k != key) if any(k != key for k, _ in items) else items[-1][1]
+                ctx.violate(rid, f"{f.name}: the optional fields {srcs} are all copied into `{dst}[{key!r}]`: the later copy overwrites the earlier one, so `{key}` carries the value of another field and `{[k for k in srcs if k != key][0]}` is lost", f, other)
+            else:
+                ctx.ok(rid, f"{f.name}: `{dst}[{key!r}]` is the copy of `{srcs[0]}` only", f"{f.module.relpath}:{items[0][1].lineno}", sample=False)
+    ctx.floor(rid, n, 20, "guarded pass-through copies")
+
+
+def check_mol2_atom_record(ctx, rid):
+    """Tripos MOL2 atom record: `id name x y z type [subst_id [subst_name [charge [status_bit]]]]`.
+
+    The atom reader is evaluated on a model stream of records with 6, 8, 9 and 10 tokens; every token must arrive in
+    the slot the format gives it -- in particular the charge (ninth token) whenever it is present, also when a status
+    bit follows."""
+    from ..accessors import AccessorEval, Raised, Rec
+    from ..symarr import NotSymbolic
+
+    prog = ctx.prog
+    f = prog.func("iodata.formats.mol2._load_helper_atoms")
+    licls = prog.cls("iodata.utils.LineIterator")
+    recs = [
+        ("1 C1 1.5 2.5 3.5 C.3", 0.0),
+        ("2 O2 4.5 5.5 6.5 O.3 1 RES", 0.0),
+        ("3 N3 7.5 8.5 9.5 N.am 1 RES -0.25", -0.25),
+        ("4 H4 0.5 1.25 2.75 H 1 RES 0.125 DSPMOD", 0.125),
+    ]
+    lit = Rec(licls, filename="F", fh=iter([r + "\n" for r, _ in recs]), lineno=0, stack=[])
+    ev = AccessorEval(prog, licls, limit=4000)
+    ev.module = f.module
+    ev._globals = {("iodata.utils", "angstrom"): 1.0}
+    try:
+        atnums, atcoords, atchgs, attypes = ev.run_free(f, [lit, len(recs)], {})
+    except Raised as exc:
+        ctx.violate(rid, f"MOL2 atom records with 6 / 8 / 9 / 10 fields: the reader raises {exc.args[0]}", f, f.node, construct="mol2 atom record: raises")
+        return
+    except NotSymbolic as exc:
+        raise AnalysisError(f"mol2._load_helper_atoms is outside the evaluation whitelist: {exc}") from exc
+    bad = None
+    want_nums = [6, 8, 7, 1]
+    for i, (r, q) in enumerate(recs):
+        w = r.split()
+        if int(round(float(atnums[i]))) != want_nums[i]:
+            bad = f"record `{r}`: atomic number {atnums[i]} instead of {want_nums[i]}"
+        elif [float(x) for x in np.asarray(atcoords[i], dtype=float)] != [float(w[2]), float(w[3]), float(w[4])]:
+            bad = f"record `{r}`: coordinates {np.asarray(atcoords[i]).tolist()} instead of tokens 3-5"
+        elif list(attypes)[i] != w[5]:
+            bad = f"record `{r}`: atom type {list(attypes)[i]!r} instead of token 6 ({w[5]!r})"
+        elif abs(float(atchgs[i]) - q) > 1e-12:
+            bad = f"record `{r}` ({len(w)} fields): charge {float(atchgs[i])} instead of {q} (the charge is the ninth field whenever it is present)"
+        if bad:
+            break
+    if bad:
+        ctx.violate(rid, f"MOL2 atom record, {bad}", f, f.node, construct=f"mol2 atom record: {bad}"[:170])
+    else:
+        ctx.ok(rid, "MOL2 atom records with 6, 8, 9 and 10 fields: number, coordinates, type and charge arrive in their slots", f"{f.module.relpath}:{f.lineno}")
